@@ -21,11 +21,21 @@ import coqlit as L
 
 ID = "C17"
 COQ_PROPERTY_FILE = "Properties/C17.v"
-COQ_DEPS = ["Common/ListX.v", "Common/ObsHash.v", "Model/Computed.v", "Proofs/ComputedProofs.v"]
+COQ_DEPS = ["Common/ListX.v", "Common/ObsHash.v", "Generated/Tables.v", "Model/Computed.v", "Proofs/ComputedProofs.v",
+            "Proofs/ComputedBridge.v"]
 COQ_IMPORTS = "From Mesa Require Import Model.Computed."
 COQ_CASE_TYPE = "case"
 COQ_RUN = "run_case"
-TABLE_CONSTRUCTS = []
+TABLE_CONSTRUCTS = ["signal_skeleton", "signal_obs_get_code", "signal_obs_set_code", "signal_comp_get_code",
+                    "signal_set_dirty_code", "signal_add_parent_code", "signal_remove_parents_code",
+                    "signal_cmp_changed_code", "signal_call_code"]
+_MS = "mesa/experimental/mesa_signals/mesa_signal.py"
+SOURCE_FUNCS = [(_MS, "BaseObservable.__get__"), (_MS, "BaseObservable.__set__"), (_MS, "Observable.__set__"),
+                (_MS, "Computable.__get__"), (_MS, "Computable.__set__"), (_MS, "Computed.__init__"),
+                (_MS, "Computed._set_dirty"), (_MS, "Computed._add_parent"), (_MS, "Computed._remove_parents"),
+                (_MS, "Computed.__call__"), (_MS, "HasObservables.observe"), (_MS, "HasObservables.unobserve"),
+                (_MS, "HasObservables.notify"), (_MS, "HasObservables._mesa_notify"),
+                ("mesa/experimental/mesa_signals/signals_util.py", "create_weakref")]
 RULE = ("histories = 1-3 owners x 1-3 integer Observables, 1-4 Computables (DSL terms with branches that switch "
         "the observables read and chains of Computables), then <= 30 top-level ops: assignments (40% restore the "
         "current or a previous value), reads, owner collection, throw-away writer Computeds (cycle clause); the first "
